@@ -78,15 +78,15 @@ def swizzle_masks(n, seed, nseed, thorough):
     # accept): one lane of a regular base takes the value a neighbouring lane, the same lane of the next 4-group / 128-bit
     # group, or the adjacent element has in that base
     bases = [ident, ident[::-1], [i ^ 1 for i in range(n)], [(i + n // 2) % n for i in range(n)], [i // 2 for i in range(n)], [(2 * i) % n for i in range(n)]]
-    for g in (4, 8, 16):
-        if g < n:
+    for g in (2, 4, 8, 16):
+        if g < n and (g > 2 or n <= 8):
             bases.append([(i // g) * g + (g - 1 - i % g) for i in range(n)])      # reverse inside every group
             bases.append([(i // g) * g + ((i + 1) % g) for i in range(n)])        # rotate inside every group
             bases.append([(i // g) * g + ((i % g) // 2) * 2 for i in range(n)])   # duplicate evens inside every group
     near_lanes = list(range(n)) if n <= 16 else sorted(set([0, 1, 5, n // 4 + 1, n // 2 - 1, n // 2, n // 2 + 5, n - 7, n - 2, n - 1]))
     for b in uniq(bases):
         for i in near_lanes:
-            for v in (b[i - 1], b[(i + 1) % n], b[(i + 4) % n], b[i] ^ 1):
+            for v in (b[i - 1], b[(i + 1) % n], b[(i + 4) % n], b[i] ^ 1) + ((b[(i + 2) % n], b[i - 2]) if n <= 8 else ()):
                 if v != b[i]:
                     m = list(b)
                     m[i] = v
@@ -140,6 +140,21 @@ def shuffle_masks(n, seed, nseed, thorough):
             for b in range(4):
                 M.append([(i // 4) * 4 + ((a if i % 4 < 2 else b) + (i % 2)) % 4 + (n if (i % 4) >= 2 else 0) for i in range(n)])
                 M.append([(i // 4) * 4 + ((a if i % 4 < 2 else b) + (i % 2)) % 4 + (0 if (i % 4) >= 2 else n) for i in range(n)])
+    # _mm256/_mm512_shuffle_pd like patterns: in every group of two lanes the even lane comes from x and the odd lane from y
+    # (and the opposite), each taking either element of the same group
+    def pd(bits, swap):
+        return [(i // 2) * 2 + ((bits >> i) & 1) + (n if (i % 2) != swap else 0) for i in range(n)]
+    if n <= 8 and thorough:
+        pd_bits = list(range(1 << n))
+    else:
+        full = (1 << n) - 1
+        alt = sum(1 << i for i in range(0, n, 2))
+        pd_bits = [0, full, alt, full ^ alt, (1 << (n // 2)) - 1, full ^ ((1 << (n // 2)) - 1)] + [1 << i for i in range(n)] + [full ^ (1 << i) for i in range(n)]
+    pd_first = len(M)
+    for bits in (pd_bits if n <= 8 else pd_bits[:6]):
+        M.append(pd(bits, 0))
+        M.append(pd(bits, 1))
+    pd_bases = M[pd_first:pd_first + 8] if n <= 8 else []  # shuffle_pd exists for 2, 4 and 8 lanes only
     # one-index perturbations of the detector patterns
     base = M[:10]
     for b in base:
@@ -151,14 +166,14 @@ def shuffle_masks(n, seed, nseed, thorough):
     # near misses of the in-lane fast-path patterns and of the zip / select detectors (see swizzle_masks): one lane takes
     # the value of a neighbouring lane, of the same lane in the next 4-group, the adjacent element, or the other operand
     if n >= 8:
-        bases = [M[4], M[5], x, y]
+        bases = [M[4], M[5], x, y] + pd_bases
         for (a, b) in ((0, 0), (1, 3), (2, 1), (3, 2)):
             bases.append([(i // 4) * 4 + ((a if i % 4 < 2 else b) + (i % 2)) % 4 + (n if (i % 4) >= 2 else 0) for i in range(n)])
             bases.append([(i // 4) * 4 + ((a if i % 4 < 2 else b) + (i % 2)) % 4 + (0 if (i % 4) >= 2 else n) for i in range(n)])
         near_lanes = list(range(n)) if n <= 16 else sorted(set([0, 1, 5, n // 4 + 1, n // 2 - 1, n // 2, n // 2 + 5, n - 7, n - 2, n - 1]))
         for b in uniq(bases):
             for i in near_lanes:
-                for v in (b[i - 1], b[(i + 1) % n], b[(i + 4) % n], b[i] ^ 1, (b[i] + n) % (2 * n)):
+                for v in (b[i - 1], b[(i + 1) % n], b[(i + 4) % n], b[i] ^ 1, (b[i] + n) % (2 * n)) + ((b[(i + 2) % n], b[i - 2]) if n <= 8 else ()):
                     if v != b[i]:
                         m = list(b)
                         m[i] = v
